@@ -13,6 +13,7 @@ import (
 	"net/http"
 	"strconv"
 	"strings"
+	"syscall"
 	"time"
 )
 
@@ -357,6 +358,30 @@ func (c *WSClient) SendMessage(fr Frame, frags []int) error {
 		o = op
 	}
 	return c.SendFrame(o, true, data)
+}
+
+// StopReading: the client stops reading from the connection (its receive window fills: the server's writes block).
+func (c *WSClient) StopReading() {
+	if conn := c.conn(); conn != nil {
+		conn.r.Stall()
+	}
+}
+
+// FailServerWrites: the server's next write on the connection fails with a broken pipe while its reader has
+// not noticed anything yet.
+func (c *WSClient) FailServerWrites() {
+	if conn := c.conn(); conn != nil {
+		conn.r.FailNextWrite(syscall.EPIPE)
+	}
+}
+
+// NetworkGivesUp: the network stack reports the connection of a vanished peer as dead (retransmission timeout):
+// reads and writes of the server fail.
+func (c *WSClient) NetworkGivesUp() {
+	if conn := c.conn(); conn != nil {
+		conn.r.Fail(syscall.ETIMEDOUT, syscall.ETIMEDOUT)
+		conn.w.Fail(syscall.ETIMEDOUT, syscall.ETIMEDOUT)
+	}
 }
 
 // Drop closes the TCP connection from the client side without a close frame.
